@@ -75,6 +75,33 @@ CHECKS = {
             "is discharged by the collision-resistance assumption and C16, as stated in the evidence.",
             "collision resistance; C16; finite fork (no symbolic bytes); expected description checksums supplied",
             "DESIGN.md 3/C05"),
+    "C02": ("symx",
+            "bounded symbolic execution of the real iteration code with z3 (symbolic random states, shuffle, parallelism, completion order)",
+            "On real shard-list trees with token decoders every index sequence of the shuffle buffers / round robin, every shuffle "
+            "size and parallelism and every in-window completion order of the lazy pool is covered; per path the yielded multiset "
+            "equals the split and the transformation is applied exactly once.",
+            "z3; contracts: LazyPool (C13), ThreadPoolExecutor.map, RustIter (C15); <= 9 examples, <= 5 shards; tf.data outside",
+            "DESIGN.md 3/C02"),
+    "C03": ("symx",
+            "bounded symbolic execution of the real unshuffled iteration paths with z3 (symbolic parallelism of both passes, reopen bit)",
+            "For datasets written by the real filler (interleaved splits, nested sessions, multi-writer calls with writers feeding "
+            "several splits) every interface yields the in-session write order, the same sequence on a second pass / reopened "
+            "handle / other parallelism, and the sequential reader's sequence; tfrec as_tfdataset pipeline is checked at the "
+            "argument level.",
+            "z3; executor/RustIter contracts; TF ordering contract (recorded pipeline)",
+            "DESIGN.md 3/C03"),
+    "C14": ("symx",
+            "bounded symbolic execution of the real iteration generators with pull-counting monitors (symbolic buffer, parallelism, take-count)",
+            "At every yield the examples/shards/paths read ahead of the consumer are proved bounded by a formula over buffer size and "
+            "parallelism only, for finite and infinite (repeating) streams; taking k elements from the infinite stream terminates.",
+            "z3; LazyPool bound 2T+3 is the C13 query; native bound is C15; tf.data prefetch outside",
+            "DESIGN.md 3/C14"),
+    "C19": ("symx",
+            "bounded symbolic execution of the real repeating iteration paths with z3 (symbolic prefix length, parallelism, random states)",
+            "Prefixes of up to 3 epochs + 1 of the endless stream: never ends, only elements of the split, unshuffled = one-pass "
+            "sequence repeated, Rust interface = one permutation and one released native iterator per epoch.",
+            "z3; contracts as C02; tf.data repeat() recorded",
+            "DESIGN.md 3/C19"),
 }
 
 PENDING_REASON = "check not built yet in this round (work in progress; see DESIGN.md section 3 for the planned encoding)"
